@@ -297,6 +297,7 @@ Ends(e, w, i) ==
     [] e.t = "bol" -> IF i = 0 THEN <<i>> ELSE <<>>
     [] e.t = "eol" -> IF i = Len(w) THEN <<i>> ELSE <<>>
     [] e.t = "cap" -> Ends(e.x, w, i)
+    [] e.t = "lit" -> CatEnds([k \in DOMAIN e.syms |-> SymAst(e.syms[k])], w, <<i>>)
     [] e.t = "alt" -> AltEnds(e.xs, w, i)
     [] e.t = "cat" -> CatEnds(e.xs, w, <<i>>)
     [] e.t = "rep" -> RepEnds(e.x, e.lo, e.hi, e.g, w, i)
